@@ -276,7 +276,7 @@ def wirePred (prop : String) (caseLine obsLine : String) : String :=
         let v : Verdict :=
           match prop with
           | "C01" => P_C01 cfg fs obs
-          | "C02" => P_C02 cfg (mode == "feed") total obs
+          | "C02" => P_C02 cfg fs (mode == "feed") total obs
           | "C03" => P_C03 cfg fs obs
           | "C04" => P_C04 cfg fs obs
           | "C05" => P_C05 cfg fs obs
